@@ -9,6 +9,15 @@ TRUST = ("Trusted base: CPython, Hypothesis, the reference models under lsfverif
          "'held' means held on the cases counted in the evidence file.")
 
 CHECKS = {
+    "C14": dict(
+        category="exploration",
+        technique="exhaustive operator x value x constant table plus Hypothesis-generated Boolean rule trees, each run as a one-Choice machine through the real engine and compared with a typed reference evaluator",
+        text=("All 39 comparison operators x 21 variable values (missing, null, booleans, numbers, strings, timestamps in Z / whole-hour / minute-offset notation, non-timestamps, [], {}) "
+              "x typed constants in literal and *Path form, and every StringMatches pattern of length <= 3 over {a * ? [ ] .}, are enumerated completely; And/Or/Not trees, ordered rule "
+              "lists with/without Default and InputPath + *Path operands are generated. The observable is which marker state the engine reaches (or States.NoChoiceMatched)."),
+        design_ref="DESIGN.md section 5 C14",
+        note="Is* (other than IsPresent) on a missing Variable and *Path operands resolving to nothing are not asserted. " + TRUST,
+    ),
     "C13": dict(
         category="exploration",
         technique="property-based differential testing of intrinsic expressions / payload templates against a hand-written reference parser+evaluator; ill-formed-input exception typing; canary for code execution; PYTHONHASHSEED metamorphic runs in sub-processes",
